@@ -349,6 +349,9 @@ def reshape(tens, shape, eps=1e-16, rmax=sys.maxsize):
     """
 
     dfin = len(shape)
+    if any((min(s) if isinstance(s, tuple) else s) <= 0 for s in shape):
+        raise ShapeMismatch(
+            'The product of modes should remain equal. Check the given shape.')
     cores, R = rl_orthogonal(tens.cores, tens.R, tens.is_ttm)
     if tens.is_ttm:
         M = []
